@@ -42,6 +42,7 @@ type File struct {
 
 	// ground truth put into the file
 	NVerts, NPrims int
+	AltNVerts      int // > 0: the complete file may also decode to this many vertices (= primitives): a file of several blocks
 	Pos            [][3]float64
 	PosTol         float64
 }
@@ -633,6 +634,43 @@ func ptsFile(cols, n int) File {
 	return f
 }
 
+// ptsMultiFile: a PTS file that holds several scans, each with a count line of its own (scanner
+// software writes one block per set-up).  Readers differ in what they make of the later blocks
+// (the first block only, or all of them); either way a proper prefix that loads without an error
+// must be the data the complete file loads to.  NVerts is the first block; AltNVerts the total.
+func ptsMultiFile(cols int, ns ...int) File {
+	var b strings.Builder
+	total := 0
+	for _, n := range ns {
+		total += n
+	}
+	f := File{ID: fmt.Sprintf("pts/%d-columns-scans-%v", cols, ns), Family: "pts", Decoder: "pts", Ascii: true,
+		NVerts: ns[0], NPrims: ns[0], AltNVerts: total, Pos: truthPos(total), PosTol: 1e-12}
+	i := 0
+	for bi, n := range ns {
+		fmt.Fprintf(&b, "%d\n", n)
+		if bi == 0 {
+			f.BodyStart = b.Len()
+			f.Sections = []Section{{"count-line", 0}, {"points", b.Len()}}
+		}
+		for j := 0; j < n; j++ {
+			f.Marks = append(f.Marks, b.Len())
+			p := posOf(i)
+			fmt.Fprintf(&b, "%g %g %g", p[0], p[1], p[2])
+			if cols >= 4 {
+				fmt.Fprintf(&b, " %d", 100+i)
+			}
+			if cols >= 7 {
+				fmt.Fprintf(&b, " %d %d %d", 51+i, 102+i, 204+i)
+			}
+			b.WriteString("\n")
+			i++
+		}
+	}
+	f.Data = []byte(b.String())
+	return f
+}
+
 // ---------------------------------------------------------------------------------------------
 // .splat (32-byte records: position 3×f32, scale 3×f32, rgba, rotation 4 bytes)
 // ---------------------------------------------------------------------------------------------
@@ -699,6 +737,9 @@ func family(thorough bool) (files []File, errs []string) {
 	add(ptsFile(4, 3), nil)
 	add(ptsFile(7, 3), nil)
 	add(ptsFile(3, 12), nil)
+	add(ptsMultiFile(3, 3, 4), nil)
+	add(ptsMultiFile(7, 2, 3, 2), nil)
+	add(ptsMultiFile(4, 5, 1), nil)
 	add(splatFile(3), nil)
 	if thorough {
 		for _, kind := range []string{"cloud", "mesh", "mesh-uv"} {
